@@ -78,8 +78,11 @@ func (h *harness) paillier(flipBudget int) {
 	c := mkCase("nthroot/paillier1024", proto, rec, x, w, x2, 32)
 	// sigma level on the implementation alone: rewinding, extractor (anchor u = x, l = N), simulator
 	L := proto.GetChallengeBytesLength()
-	for _, e1 := range challenges(r, L) {
+	for ci, e1 := range challenges(r, L) {
 		e2 := r.Bytes(L)
+		if ci == 1 {
+			e2 = e1 // equal challenges: the extractor must refuse
+		}
 		a, st, err := proto.ComputeProverCommitment(x, w)
 		if err != nil {
 			panic(err)
@@ -100,6 +103,9 @@ func (h *harness) paillier(flipBudget int) {
 		coprime := new(big.Int).GCD(nil, nil, n, new(big.Int).Abs(d)).Cmp(big.NewInt(1)) == 0 && d.Sign() != 0
 		if coprime && err != nil {
 			h.prop("sigma-extract/nthroot", cs, "extractor failed on two accepting transcripts with gcd(N, e1-e2) = 1: "+err.Error(), "maurer_special_sound")
+		}
+		if d.Sign() == 0 && err == nil {
+			h.prop("sigma-extract/nthroot", cs, "extractor answered on equal challenges", "maurer_extract gcd guard")
 		}
 		if err == nil && proto.ValidateStatement(x, wx) != nil {
 			h.prop("sigma-extract/nthroot", cs, "extractor output is not an N-th root of the statement", "maurer_special_sound")
